@@ -148,19 +148,18 @@ def St.dropHolder (st : St) (h : Holder) : St :=
 
 def St.dropHolders (st : St) (hs : List Holder) : St := hs.foldl St.dropHolder st
 
-/-- `coap_session_free`: `if (session->ref) return;` … SESSIONS_DELETE … coap_free_type(COAP_SESSION) -/
-def St.sessionFree (st : St) (sid : Nat) : St :=
+/-- `coap_handle_event_lkd(ctx, COAP_EVENT_SERVER_SESSION_DEL, s); coap_session_free(s);`
+    The three call sites (eviction in coap_endpoint_get_session, reclamation in coap_io_prepare_io_lkd,
+    coap_free_endpoint_lkd) have each tested `s->ref == 0` on this very session immediately before (the last one
+    forces it since the fix), so the `if (session->ref) return;` inside coap_session_free never fires after the event
+    has been raised; M keeps that test in front of both. -/
+def St.reclaim (st : St) (sid : Nat) : St :=
   match st.getSess sid with
   | none => st
   | some s =>
     if s.ref ≠ 0 then st
-    else { st with sessions := st.sessions.filter (fun t => t.sid ≠ sid), ledger := st.ledger ++ [.free sid] }
-
-/-- `coap_handle_event_lkd(ctx, COAP_EVENT_SERVER_SESSION_DEL, s); coap_session_free(s);`
-    (the three call sites: eviction in coap_endpoint_get_session, reclamation in coap_io_prepare_io_lkd,
-    coap_free_endpoint_lkd) -/
-def St.reclaim (st : St) (sid : Nat) : St :=
-  St.sessionFree { st with events := st.events ++ [SEvent.del sid] } sid
+    else { st with events := st.events ++ [SEvent.del sid],
+                   sessions := st.sessions.filter (fun t => t.sid ≠ sid), ledger := st.ledger ++ [.free sid] }
 
 /-- `coap_make_session` + SESSIONS_ADD + COAP_EVENT_SERVER_SESSION_NEW -/
 def St.newSession (st : St) (p : Peer) : St :=
@@ -327,16 +326,19 @@ inductive Outcome where
   | skip
   deriving DecidableEq, Repr
 
+/-- no datagram is injected: the harness does not send an observe request to a deleted resource, and a datagram can
+    only arrive on an endpoint of this context -/
+def St.rxSkip (st : St) (p : Peer) (r : Req) : Bool :=
+  (match r with
+    | .obsReg k => !(k ∈ st.resAlive)
+    | .obsDereg k => !(k ∈ st.resAlive)
+    | _ => false) || !((p.lport, p.proto) ∈ st.eps)
+
 def St.step (st : St) (e : Event) : St × Outcome :=
   if st.freed then (st, .skip) else
   match e with
   | .rx p r =>
-    -- the harness does not send an observe request to a deleted resource
-    let skipIt := match r with
-      | .obsReg k => !(k ∈ st.resAlive)
-      | .obsDereg k => !(k ∈ st.resAlive)
-      | _ => false
-    if skipIt then (st, .skip) else
+    if st.rxSkip p r then (st, .skip) else
     let (st1, sid) := st.getSession p
     -- coap_io_do_epoll_lkd ends with coap_io_prepare_epoll_lkd
     ((st1.serve sid r).prepareIo, .handled sid)
